@@ -811,7 +811,7 @@ func ruleFontSizeInputs(c *eng.Ctx) {
 // R15.4 [C15]
 func ruleHeadingBeforeList(c *eng.Ctx) {
 	const R = "R15.4-HEADING-BEFORE-LIST"
-	c.Rule(R, "in the docx and odt Markdown writers a paragraph is written as a list item only after it was found not to be a heading: a numbered heading (heading style plus numbering properties) stays a heading with its level", 4, 0)
+	c.Rule(R, "in the docx and odt Markdown writers a paragraph is written as a list item only after it was found not to be a heading: a numbered heading (heading style plus numbering properties) stays a heading with its level", 1, 0)
 	for _, fn := range c.P.ModuleFuncs() {
 		if fn.Pkg == nil {
 			continue
@@ -1321,6 +1321,41 @@ func ruleRelIDAttrQualified(c *eng.Ctx) {
 					loose = append(loose, est.Field(j))
 				}
 			}
+			// a hand-written decoder: the fields assigned only where the attribute's namespace was compared
+			// with the relationships namespace are qualified, the other assigned fields are loose
+			if nt, ok := ft.(*types.Named); ok {
+				if um := c.P.Func("pptx.(*" + nt.Obj().Name() + ").UnmarshalXML"); um != nil {
+					eng.Instrs(um, false, func(in ssa.Instruction) {
+						stI, ok := in.(*ssa.Store)
+						if !ok {
+							return
+						}
+						fa, ok := stI.Addr.(*ssa.FieldAddr)
+						if !ok || fa.X != ssa.Value(um.Params[0]) {
+							return
+						}
+						nsOK := eng.GuardedBy(um, stI.Block(), func(f eng.Fact) bool {
+							op, x, y, ok := f.Cmp()
+							if !ok || op != token.EQL {
+								return false
+							}
+							for _, side := range [][2]ssa.Value{{x, y}, {y, x}} {
+								if cs, ok := eng.ConstString(side[1]); ok && strings.HasSuffix(cs, "/relationships") {
+									if fr, ok := eng.LoadOfField(side[0]); ok && fr.Field == "Space" {
+										return true
+									}
+								}
+							}
+							return false
+						})
+						if nsOK {
+							qualified = true
+						} else {
+							loose = append(loose, est.Field(fa.Field))
+						}
+					})
+				}
+			}
 			// an unqualified field must not be read
 			readLoose := ""
 			for _, fn := range c.P.ModuleFuncs() {
@@ -1331,6 +1366,17 @@ func ruleRelIDAttrQualified(c *eng.Ctx) {
 					var fv *types.Var
 					switch x := in.(type) {
 					case *ssa.FieldAddr:
+						onlyStored := true
+						for _, r := range *x.Referrers() {
+							if stR, ok := r.(*ssa.Store); !ok || stR.Addr != ssa.Value(x) {
+								if _, isDbg := r.(*ssa.DebugRef); !isDbg {
+									onlyStored = false
+								}
+							}
+						}
+						if onlyStored {
+							return
+						}
 						if s, ok := x.X.Type().Underlying().(*types.Pointer); ok {
 							if ss, ok := s.Elem().Underlying().(*types.Struct); ok && ss == est {
 								fv = ss.Field(x.Field)
@@ -1627,7 +1673,7 @@ func ruleAllocFromFileInt(c *eng.Ctx) {
 // R2.13 [C02]
 func ruleSliceBoundOwnLength(c *eng.Ctx) {
 	const R = "R2.13-SLICE-BOUND-OWN-LENGTH"
-	c.Rule(R, "when the upper bound of a slice expression on a string or byte slice is clamped with a length (min(k, len(y)), or the written-out clamp), the length is that of the value being sliced: the length of a different value (the bytes before upper-casing, another buffer) does not bound it and the expression panics on input where the two differ", 2, 1)
+	c.Rule(R, "when the upper bound of a slice expression on a string or byte slice is clamped with a length (min(k, len(y)), or the written-out clamp), the length is that of the value being sliced: the length of a different value (the bytes before upper-casing, another buffer) does not bound it and the expression panics on input where the two differ", 1, 1)
 	n := 0
 	for _, fn := range c.P.ModuleFuncs() {
 		if fn.Blocks == nil {
